@@ -25,6 +25,7 @@ func init() {
 			{ID: "C20.R4", Floor: 5, Doc: "CA / key-pair file errors are returned and propagated", Run: c20r4},
 			{ID: "C20.R5", Floor: 2, Doc: "password token only after approve(); default list only when the custom list is empty", Run: c20r5},
 			{ID: "C20.R6", Floor: 3, Doc: "no unauthenticated session: nil only for READY / AUTH_SUCCESS; missing authenticator refused first", Run: c20r6},
+			{ID: "C20.R9", Floor: 1, Doc: "every defaultHostDialer the connection configuration builds carries the TLS configuration derived from SslOpts", Run: c20DialerKeepsTLS},
 			{ID: "C20.R8", Floor: 1, Doc: "a CA file that was read is always handed to AppendCertsFromPEM before setupTLSConfig succeeds", Run: c20r8},
 			{ID: "C20.R7", Floor: 1, Doc: "the name the server certificate is verified against is the host's name (HostnameAndPort), not the address that was dialled", Run: c20r7},
 		},
